@@ -17,6 +17,7 @@ T = [
  ("setXYZ", "setXYZVector", "(a v : V3 α)", "a v", "V3 α"),
  ("toXYZ", "toXYZVector", "(a : V3 α)", "a", "V3 α"),
  ("setOrderKeeps", "setOrderKeepsAngles", "(a : V3 α)", "a", "V3 α × Int"),
+ ("copyAssign", "copyAndAssign", "(a v : V3 α)", "a v", "V3 α × Int × V3 α × Int × V3 α × Int"),
  ("reorderFromXYZ", "reorderFromXYZ", "(sqrt sin cos : α → α) (atan2 : α → α → α) (a : V3 α)", "sqrt sin cos atan2 a", "V3 α × Int"),
  ("reorderToZYXr", "reorderToZYXr", "(sqrt sin cos : α → α) (atan2 : α → α → α) (a : V3 α)", "sqrt sin cos atan2 a", "V3 α × Int"),
  ("nearest", "nearestRotation", "(angleMod : α → α) (xyzRot target : V3 α)", "angleMod xyzRot target", "V3 α"),
